@@ -148,7 +148,7 @@ static int check_model(const rsig *s, const char *what) {
 }
 
 /* ------------------------------------------------------------------ mutation catalogue */
-#define NMUT 62
+#define NMUT 63
 static const char *MUTNAME[NMUT] = {
 	"chain1-input", "chainlast-input", "rfc-suffix", "chain1-time", "chainlast-time", "rfc-time", "cal-input", "cal-aggrtime-consistent",
 	"cal-flip-link", "cal-drop-link", "cal-add-link", "auth-time", "auth-hash", "pub-time", "pub-hash", "index-last-top", "index-last-bottom",
@@ -157,7 +157,7 @@ static const char *MUTNAME[NMUT] = {
 	"meta-padv-00", "meta-padv-ff", "meta-padv-0201", "meta-padv-0001", "meta-padv-ff01", "meta-padv-0102", "meta-padv-0100", "meta-padv-0202", "meta-padv-empty", "meta-padv-010101", "meta-padv-0101-ok", "meta-padv-01-ok",
 	"cal-add-right-lowest", "cal-add-left-lowest", "cal-add-right-second", "cal-dup-first",
 	"corr-2^64-1", "corr-2^64-2-last-chain", "corr-2^32", "cal-no-aggrtime-consistent",
-	"rfc-tst-alg+2^32", "rfc-sig-alg+2^32", "rfc-both-alg+2^63", "rfc-tst-alg-257", "rfc-index-one-more", "rfc-index-one-less", "cal-no-aggrtime-shape-of-previous-second", "meta-pad-tlv16-hashed-as-tlv8"
+	"rfc-tst-alg+2^32", "rfc-sig-alg+2^32", "rfc-both-alg+2^63", "rfc-tst-alg-257", "rfc-index-one-more", "rfc-index-one-less", "cal-no-aggrtime-shape-of-previous-second", "meta-pad-tlv16-hashed-as-tlv8", "index-middle-value"
 };
 
 static rlink *find_meta(rsig *s, int *chain) {
@@ -280,6 +280,12 @@ static int mutate(rsig *s, int m) {
 		case 55: if (!s->has_rfc || s->rfc.sig_alg != RH_SHA256) return -1; s->rfc.sig_alg += 0x100000000ULL; return 0;
 		case 56: if (!s->has_rfc || s->rfc.tst_alg != RH_SHA256 || s->rfc.sig_alg != RH_SHA256) return -1; s->rfc.tst_alg += 0x8000000000000000ULL; s->rfc.sig_alg += 0x8000000000000000ULL; return 0;
 		case 57: if (!s->has_rfc || s->rfc.tst_alg != RH_SHA256) return -1; s->rfc.tst_alg += 256; return 0;
+		case 62: { /* a value in the middle of the lowest chain's index differs from the chain above (three chains and more): neither the first
+		            * value nor the one that describes the chain's own shape */
+			if (s->nchains < 3 || s->ch[0].nindex < 3) return -1;
+			s->ch[0].index[s->ch[0].nindex - 2] ^= 1;
+			return 0;
+		}
 		case 61: { /* the padding element is coded with the long (TLV16) header, while every hash of the signature was computed over the record
 		            * with the padding in its short form: what is hashed is not what the signature carries, and the padding is not a TLV8 */
 			static const unsigned char one[2] = {1, 1};
